@@ -225,6 +225,25 @@ func runVecHistory(r *rand.Rand, p vecParams, o vecHistOpts, t *Trace) *Case {
 			emitDump()
 		}
 		if o.serialize && (step == o.nops/2 || r.Intn(12) == 0) {
+			// the law of a reload, between two answers of the implementation: what a probe query finds
+			// before the index is written is what it finds in the index read back (all eligible hits, k = all)
+			probe := func(ix comet.VectorIndex) ([][2]uint64, int) {
+				if !ix.Trained() || len(resident) == 0 {
+					return nil, -1
+				}
+				q := cloneVec(resident[len(resident)/2].raw)
+				var res []comet.VectorResult
+				var pe error
+				if catchPanic(func() { res, pe = ix.NewSearch().WithQuery(q).WithK(0).WithNProbes(p.nlist).Execute() }) {
+					return nil, 12
+				}
+				out := make([][2]uint64, len(res))
+				for i, x := range res {
+					out[i] = [2]uint64{uint64(x.Node.ID()), bits32(x.Score)}
+				}
+				return out, errCode(pe)
+			}
+			before, bcode := probe(idx)
 			var buf bytes.Buffer
 			n, e := idx.WriteTo(&buf)
 			if e != nil {
@@ -244,6 +263,10 @@ func runVecHistory(r *rand.Rand, p vecParams, o vecHistOpts, t *Trace) *Case {
 			ops = append(ops, func(c *Case) { c.N(8).Bytes(stream).N(code).I(rn) })
 			t.Stat("vec.reload")
 			if re == nil {
+				if after, acode := probe(fresh); bcode == 0 && acode >= 0 {
+					ops = append(ops, func(c *Case) { c.N(9).Pairs(before).N(acode).Pairs(after) })
+					t.Stat("vec.reload_law")
+				}
 				idx = fresh // continuation history runs on the reloaded index
 				held = nil
 				kept := resident[:0]
@@ -640,6 +663,13 @@ func runVecHistory(r *rand.Rand, p vecParams, o vecHistOpts, t *Trace) *Case {
 					out2[i] = [2]uint64{uint64(x.Node.ID()), bits32(x.Score)}
 				}
 				code2 := errCode(e2)
+				// a search changes nothing, not even its own builder: the second answer equals the first
+				// (a law between two answers of the implementation, decided without the model)
+				out1 := make([][2]uint64, len(res))
+				for i, x := range res {
+					out1[i] = [2]uint64{uint64(x.Node.ID()), bits32(x.Score)}
+				}
+				ops = append(ops, func(c *Case) { c.N(9).Pairs(out1).N(code2).Pairs(out2) })
 				ops = append(ops, func(c *Case) {
 					c.N(4).Vecs(qs).U32s(nodes).U32s(docids).N(k).F32(thr).N(aggz).N(cutoff).N(np)
 					c.N(code2).Pairs(out2)
